@@ -253,7 +253,24 @@ def run_shard(spec_, res):
     for v in res.violations[n_viol:]:
         v["key"] = v["key"].replace("C13:", "C13:after-hostile-loads:", 1)
         v["what"] = "after loading files with unknown module types / out-of-enumeration values: " + v["what"]
-    res.count("registry_comparisons", 2)
+    # applications subclass module classes (to add helpers); the metaclass runs again for each subclass and whichever
+    # class is registered under the type name afterwards must still carry the specified tables
+    from rv.modules import MODULE_CLASSES
+    originals = dict(MODULE_CLASSES)
+    for mtype, cls in sorted(originals.items()):
+        try:
+            type(cls.__name__, (cls,), {"rvmon_helper": lambda self: self.name, "__module__": cls.__module__, "__doc__": cls.__doc__})
+            res.count("application_subclasses_defined")
+        except Exception as e:
+            res.violation(f"C13:subclassing-raises:{type(e).__name__}", f"defining a subclass of {cls.__name__} raised {e!r}", {"mtype": mtype})
+    n_viol = len(res.violations)
+    compare_all(res)
+    for v in res.violations[n_viol:]:
+        v["key"] = v["key"].replace("C13:", "C13:after-subclassing:", 1)
+        v["what"] = "after an application defined a subclass of every module class: " + v["what"]
+    MODULE_CLASSES.clear()
+    MODULE_CLASSES.update(originals)
+    res.count("registry_comparisons", 3)
     if spec_["tier"] == "thorough":
         regen_diff(res)
 
